@@ -6,4 +6,10 @@ mod c16_dvi;
 #[cfg(all(kani, feature = "p_stdext"))]
 mod c20_grouping;
 #[cfg(all(kani, feature = "p_stdext"))]
-mod c20_probe;
+mod c20_matcher;
+#[cfg(all(kani, feature = "p_stdext"))]
+mod c20_interner;
+#[cfg(all(kani, feature = "p_boxworks"))]
+mod c15_hpack;
+#[cfg(all(kani, feature = "p_tfm"))]
+mod c10_tfm;
